@@ -77,3 +77,13 @@ def sample(rng, items, k):
 def floor_check(run, what, got, floor):
     if got < floor:
         run.broke("%s: only %d, below the floor of %d confirmed on the pinned tree (rule instances vanished?)" % (what, got, floor))
+
+
+def lit(v):
+    """C++ literal of an operand bound (bounds beyond 64 bits are built in 128-bit arithmetic: a bare decimal literal that
+    large is unsigned long long and its negation wraps)"""
+    if -(1 << 63) < v < (1 << 63):
+        return "%dLL" % v if v >= 0 else "(-%dLL)" % -v
+    m = abs(v)
+    e = "(((cnl::int128_t)%dULL << 64) | (cnl::int128_t)%dULL)" % (m >> 64, m & ((1 << 64) - 1))
+    return e if v >= 0 else "(-%s)" % e
